@@ -85,15 +85,37 @@ def main(tier):
                         if d:
                             rep.violation({"check": "%s with a plain number" % cls, "op": op, "k": kname, "kvalue": kval, "quantity": qsel, "container": kind}, {"diff": d, "xs": vs})
             # a numpy array as the plain operand (Arrays only): element i of k is kval for every i
-            karr = numpy.array([kval] * len(vs))
-            for kind in ("list", "tuple", "ndarray"):
+            karrs = [numpy.array([kval] * len(vs))]
+            if kval >= 0 and float(kval) == int(kval):
+                karrs += [numpy.array([int(kval)] * len(vs), dtype=numpy.uint8), numpy.array([int(kval)] * len(vs), dtype=numpy.int32)]
+            for karr in karrs:
+              for kind in ("list", "tuple", "ndarray"):
                 o = P.outcome(lambda: FN[op](karr, mkarray(qsel, vs, kind)))
                 n += 1
                 d = ["raised %s" % o[2]] if o[0] != "ok" else check("Array", o[1], rows[0], want, "Array")
                 if d:
-                    rep.violation({"check": "Array with a numpy array", "op": op, "kvalue": kval, "quantity": qsel, "container": kind}, {"diff": d, "xs": vs})
+                    rep.violation({"check": "Array with a numpy array", "op": op, "kvalue": kval, "dtype": str(karr.dtype), "quantity": qsel, "container": kind}, {"diff": d, "xs": vs})
+        # "applies the operation to the value(s)": for operands that are not exact in binary the value must be what Python's own
+        # float operator gives on the raw numbers (6 // 0.1 is 59.0, not 60.0); recorded and validated by TLC (MC_Judge: Same)
+        events = []
+        import operator as _op
+        PY = {"k*x": lambda k, v: k * v, "x*k": lambda k, v: v * k, "x/k": lambda k, v: v / k, "x//k": lambda k, v: v // k, "x+k": lambda k, v: v + k,
+              "k+x": lambda k, v: k + v, "x-k": lambda k, v: v - k, "k-x": lambda k, v: k - v, "k/x": lambda k, v: k / v, "k//x": lambda k, v: k // v}
+        for opn in PY:
+            for kval in (6, 3.0, 0.9, 0.3):
+                for v in (0.1, 0.3, 0.7, 1.1):
+                    want = PY[opn](kval, v)
+                    for qsel in ("simple", "derived"):
+                        o = P.outcome(FN[opn], kval, mkscalar(qsel, v))
+                        events.append({"op": "Same", "call": "Scalar %s k=%r x=%r %s" % (opn, kval, v, qsel), "a": repr(float(want)),
+                                       "b": repr(float(o[1].GetValue())) if o[0] == "ok" and hasattr(o[1], "GetValue") else "raised/%s" % (o[2] if o[0] != "ok" else type(o[1]).__name__)})
+                        for kind in ("list", "ndarray"):
+                            o = P.outcome(lambda: FN[opn](kval, mkarray(qsel, [v, v], kind)))
+                            events.append({"op": "Same", "call": "Array[%s] %s k=%r x=%r %s" % (kind, opn, kval, v, qsel), "a": repr([float(want)] * 2),
+                                           "b": repr([float(z) for z in o[1].GetAbstractValue()]) if o[0] == "ok" and hasattr(o[1], "GetAbstractValue") else "raised/%s" % (o[2] if o[0] != "ok" else type(o[1]).__name__)})
     finally:
         UnitDatabase.PopSingleton()
+    common.judge_trace(rep, bd, events, "operands that are not exact in binary: the result is Python's own float operation on the raw numbers", key_of=lambda e: {"check": "float operator", "call": e["call"]})
     rep.count(evaluations=n, nontrivial=len(g["rows"]), traces=n)
     rep.sample({"table_row": g["rows"][len(g["rows"]) // 2]})
     rep.cov["exhaustive"] = True
